@@ -302,7 +302,7 @@ def execute(prop, tier, seed):
                             t2 = dict(base)
                             t2["initial_work"] = [tr]
                             t2["shard"] = shard_no[r["job"]]
-                            t2["collect_models"] = 0
+                            t2["collect_models"] = 1
                             nxt.append(pool.apply_async(work, (t2,)))
                 pending = nxt
                 if pending:
